@@ -36,6 +36,12 @@ Theorem C09_validate_total : forall (P : prims) (fx : fixes), guarded_fixes fx -
 Proof. exact validate_chunks_total. Qed.
 Print Assumptions C09_validate_total.
 
+(* the reassembly part of Chunker::decode (header parsing, final-flag checks, concatenation of the
+   bodies) never panics on a non-empty list; decoding the reassembled message is C02's subject *)
+Theorem C09_decode_total : forall (P : prims) (r : receiver) (cs : list bytes), cs <> [] -> total (decode P r cs).
+Proof. exact decode_total. Qed.
+Print Assumptions C09_decode_total.
+
 (* ChunkInfo::new and the header decoders never panic *)
 Theorem C09_chunk_info_total : forall (P : prims) (lm : limits) (d : bytes), total (chunk_info P lm d).
 Proof. exact chunk_info_total. Qed.
